@@ -51,7 +51,8 @@ CHECKS['C13'] = dict(
           'its last day; the GENERATED next_cds_date is the first 20 Mar/Jun/Sep/Dec strictly after; third_wednesday_of_month '
           'is total, a Wednesday in 15..21 and unique; next_imm_date is the first third-Wednesday of Mar/Jun/Sep/Dec strictly '
           'after; iterated month steps move the month index by exactly k*step and nY = 12nM whenever both succeed; '
-          'add_weekdays never lands on a weekend; results do not depend on the table-extension state. Tie: kernels regenerated from date.py each run + exhaustive correspondence '
+          'add_weekdays never lands on a weekend; the GENERATED date_from_index inverts date_index on the whole padded table '
+          'domain (exact arithmetic) and date_index is injective; results do not depend on the table-extension state. Tie: kernels regenerated from date.py each run + exhaustive correspondence '
           '(implementation = model = spec = Python datetime) on every date 1900-03-01..2200-12-31, sampled arithmetic, '
           'malformed constructor stream, call histories in fresh interpreters.'),
     note=BASE_NOTE + 'fastmath float division in the compiled date_from_index is validated exhaustively, not proved; add_years with '
